@@ -11,15 +11,18 @@ IMPL = "c17_impl.py"
 SHARD = 200
 RULE = ("@async_generator() bodies = step trees over {await future (ConstFuture/ErrorFuture | asynq task | task blocked on a "
         "DebugBatchItem; outcome value / END marker / error), yield Value(v), raise, nested async generator iterated as "
-        "documented}; exhaustive part: every body over {await, value} up to length 6 (quick) / 8 (thorough) x take_first n in 0..9 "
-        "followed by a second consumer op; random part: bodies up to length 20, nesting depth <= 2, failing awaits, raising "
+        "documented, yield of a non-Value non-future awaitable: None (bare pause / conditional await whose condition is false), "
+        "tuple / list / dict (empty ones included, nested <= 2) of futures and None}; exhaustive part: every body over {await, value} up to length 6 (quick) / 8 (thorough) x take_first n in 0..9 "
+        "followed by a second consumer op, and every body over {await, value, non-Value yield} with >= 1 such yield up to length 4 "
+        "(quick) / 6 (thorough) x n in 0..4 / 0..7 with op lists built from take_first / next+value / list_of_generator; random part: bodies up to length 20, nesting depth <= 2, failing awaits, raising "
         "bodies, op lists of length 1..8 over next / task.value() / list_of_generator / take_first(n), called directly or from "
         "another asynq task; protocol-violating op lists (next before the previous task is computed) are the malformed stream; "
-        "distinct = different (body without future kinds, op list); non-trivial = body has >= 1 await and >= 1 Value")
+        "distinct = different (body without future kinds, op list); non-trivial = body has >= 1 await / non-Value yield and >= 1 Value")
 TRUSTED = ["the scheduler is exercised, not modelled: the model only assumes that a yielded future is computed before the "
            "task that yielded it is resumed (C01/C03 are about that)",
            "CountingGen (harness wrapper that counts generator.send calls) forwards to a real Python generator"]
-ASSUMPTIONS = ["awaits yield a single future (not a tuple/list/dict of futures)",
+ASSUMPTIONS = ["a body yields a Value, a single future, None, or a tuple/list/dict (nested <= 2) of futures and None; futures inside a "
+               "container have a value or an error outcome (not the END marker)",
                "n >= 0 as in the statement; callers iterate with next()/for (gen.send(v) with v != None is not exercised)",
                "nested generators are iterated with the loop the async_generator docstring prescribes; consumption is counted on the outer generator only",
                "the model is of take_first WITH the repair work/fixes/C17-take-first-zero.diff; the unrepaired loop is Gen.take_first_orig (refuted at n = 0 in props/C17.v)"]
@@ -46,15 +49,42 @@ def _await(rng, i, fail_p=0.0, end_p=0.0):
 _ctr = itertools.count()
 
 
-def gen_body(rng, maxlen, depth, fail_p, raise_p, end_p):
+def _fut(rng, fail_p):
+    i = next(_ctr) % 300
+    if rng.random() < fail_p:
+        o = {"Err": [500 + i]}
+    else:
+        o = {"Ok": [{"VInt": [100 + i]} if rng.random() > 0.1 else "VNone"]}
+    return {"WFut": [rng.choice(KINDS), o]}
+
+
+def _aw(rng, fail_p=0.0, depth=2, none_p=0.5):
+    """Something that is neither a Value nor a single future: None, or a container of futures / None / containers."""
+    r = rng.random()
+    if r < none_p:
+        return "WNone"
+    if depth == 0:
+        return _fut(rng, fail_p)
+    n = rng.choice([0, 0, 1, 1, 2, 2, 3])
+    mem = [(_fut(rng, fail_p) if rng.random() < 0.5 else _aw(rng, fail_p, depth - 1, 0.6)) for _ in range(n)]
+    k = rng.choice(["WTuple", "WTuple", "WList", "WDict"])
+    if k == "WDict":
+        return {"WDict": [[{"": [j + 1, m]} for j, m in enumerate(mem)]]}
+    return {k: [mem]}
+
+
+def gen_body(rng, maxlen, depth, fail_p, raise_p, end_p, yield_p=0.0):
     n = rng.randrange(0, maxlen + 1)
     b = []
     for _ in range(n):
+        if yield_p and rng.random() < yield_p:
+            b.append({"NYield": [_aw(rng, fail_p)]})
+            continue
         r = rng.random()
         i = next(_ctr) % 300
         nest_p = 0.15 if depth > 0 else 0.0
         if r < nest_p:
-            b.append({"NNest": [gen_body(rng, max(1, maxlen // 2), depth - 1, fail_p, raise_p, end_p)]})
+            b.append({"NNest": [gen_body(rng, max(1, maxlen // 2), depth - 1, fail_p, raise_p, end_p, yield_p)]})
         elif r < nest_p + raise_p:
             b.append({"NRaise": [700 + i]})
         elif r < 0.58:
@@ -109,7 +139,58 @@ def exhaustive(rng, maxlen, reps=1):
     return cs
 
 
+def exhaustive_yields(rng, maxlen, nmax):
+    """Every body over {await, Value, non-Value yield} that has at least one such yield (None most of the time), x n."""
+    cs = []
+    tails = [[], ["OList"], ["OList", "ONext"], [{"OTake": [1]}, "OList"], ["ONext", "OCompute", "OList"], ["ONext", "ONext"],
+             ["ONext", "OCompute", "ONext", "OCompute", "ONext"]]
+    for L in range(1, maxlen + 1):
+        for mask in itertools.product("avp", repeat=L):
+            if "p" not in mask:
+                continue
+            for n in range(0, nmax + 1):
+                body = []
+                for i, ch in enumerate(mask):
+                    if ch == "a":
+                        body.append({"NAwait": [rng.choice(KINDS), {"TVal": [{"VInt": [100 + i]}]}]})
+                    elif ch == "v":
+                        body.append({"NValue": [{"VInt": [i + 1]}]})
+                    else:
+                        body.append({"NYield": [_aw(rng, 0.0, 1, 0.6)]})
+                t = rng.choice(tails)
+                r = rng.random()
+                if r < 0.15:
+                    ops = ["OList"] + t
+                elif r < 0.30:
+                    ops = ["ONext", "OCompute", {"OTake": [n]}] + t
+                else:
+                    ops = [{"OTake": [n]}] + t
+                cs.append(_case(body, ops, exhaustive=True, yields=True, via=("task" if rng.random() < 0.3 else "sync")))
+    return cs
+
+
 def gen_cases(rng, tier):
+    cs = _gen_cases_base(rng, tier)
+    # appended after the older streams so that those stay exactly what they were
+    quick = tier == "quick"
+    cs += exhaustive_yields(rng, 4, 4) if quick else exhaustive_yields(rng, 6, 7)
+    for _ in range(300 if quick else 8000):
+        r = rng.random()
+        malformed = rng.random() < 0.2
+        yp = rng.choice([0.15, 0.3, 0.5])
+        if r < 0.45:      # clean flat
+            body = gen_body(rng, 14, 0, 0.0, 0.0, 0.0, yp)
+        elif r < 0.70:    # clean nested
+            body = gen_body(rng, 9, 2, 0.0, 0.0, 0.0, yp)
+        elif r < 0.88:    # failing awaits / failing members of containers / raising bodies, flat
+            body = gen_body(rng, 10, 0, 0.15, 0.05, 0.05, yp)
+        else:
+            body = gen_body(rng, 9, 2, 0.1, 0.04, 0.05, yp)
+        cs.append(_case(body, gen_ops(rng, malformed), malformed=malformed, yields=True, via=("task" if rng.random() < 0.3 else "sync")))
+    return cs
+
+
+def _gen_cases_base(rng, tier):
     quick = tier == "quick"
     cs = exhaustive(rng, 6, 1) if quick else exhaustive(rng, 8, 2)
     nrand = 500 if quick else 20000
@@ -140,6 +221,8 @@ def _v(i):
     return {"NValue": [{"VInt": [i]}]}
 
 
+_P = {"NYield": ["WNone"]}          # `yield None` / bare `yield` / `yield (fut if cond else None)` with cond false
+
 CORPUS = [
     # the documented example and the three bodies of test_generator.py
     _case([_a("ATask", _ok(42)), _v(42)], ["OList"], corpus=True),
@@ -161,16 +244,68 @@ CORPUS = [
     _case([_v(1), {"NRaise": [701]}, _v(2)], [{"OTake": [1]}, "ONext", "ONext", "OList"], corpus=True),
     _case([{"NNest": [[{"NRaise": [702]}]]}, _v(2)], ["OList", "OList"], corpus=True),
     _case([_a("ATask", "TEnd"), _v(1), _a("AConst", _ok(2))], ["ONext", "OCompute", "ONext", "OCompute", "ONext"], corpus=True),
+    # yields that are neither a Value nor a future.  `yield None` first thing after the body is advanced (start / after a Value):
+    _case([_P, _a("ATask", _ok(2)), _v(2), _P, _a("ATask", _ok(4)), _v(4), _P, _a("ATask", _ok(6)), _v(6)],
+          ["OList", "ONext", "ONext"], corpus=True),
+    # ... and in the middle of a run of awaits (conditional await whose condition is false), taken in chunks
+    _case([_a("ATask", _ok(2)), _P, _v(2), _a("ATask", _ok(4)), _P, _v(4), _a("ATask", _ok(6)), _P, _v(6), _a("ATask", _ok(8)), _P, _v(8)],
+          [{"OTake": [2]}, "ONext", "ONext", "OCompute", {"OTake": [5]}, "ONext"], corpus=True),
+    # empty / None-holding / future-holding containers, a pause after the last Value, a nested generator that pauses
+    _case([{"NYield": [{"WTuple": [[]]}]}, _v(1), {"NYield": [{"WList": [["WNone", {"WFut": ["ATask", {"Ok": [{"VInt": [3]}]}]}]]}]}, _v(2),
+           {"NNest": [[_P, _v(3), {"NYield": [{"WDict": [[{"": [1, {"WFut": ["ABatch", {"Ok": [{"VInt": [4]}]}]}]}]]}]}, _P]]}, _v(4), _P],
+          [{"OTake": [1]}, "ONext", "OCompute", "OList", "ONext"], corpus=True),
 ]
 
 
 # ------------------------------------------------------------------ model side
+def _strip_aw(w):
+    if w == "WNone":
+        return w
+    (k, a), = w.items()
+    if k == "WFut":
+        return {"WFut": [a[1]]}
+    if k == "WDict":
+        return {k: [[{"": [kv[""][0], _strip_aw(kv[""][1])]} for kv in a[0]]]}
+    return {k: [[_strip_aw(x) for x in a[0]]]}
+
+
+def _aw_members(w):
+    if w == "WNone":
+        return []
+    (k, a), = w.items()
+    if k == "WFut":
+        return []
+    if k == "WDict":
+        return [kv[""][1] for kv in a[0]]
+    return list(a[0])
+
+
+def _aw_fails(w):
+    if w == "WNone":
+        return False
+    (k, a), = w.items()
+    if k == "WFut":
+        return "Err" in a[1]
+    return any(_aw_fails(m) for m in _aw_members(w))
+
+
+def _aw_kind(w):
+    if w == "WNone":
+        return "None"
+    k = next(iter(w))
+    if k == "WFut":
+        return "future-in-container"
+    return {"WTuple": "tuple", "WList": "list", "WDict": "dict"}[k] + ("-empty" if not _aw_members(w) else "")
+
+
 def _strip(b):
     out = []
     for st in b:
         (k, a), = st.items()
         if k == "NAwait":
             out.append({"NAwait": [a[1]]})
+        elif k == "NYield":
+            out.append({"NYield": [_strip_aw(a[0])]})
         elif k == "NNest":
             out.append({"NNest": [_strip(a[0])]})
         else:
@@ -198,7 +333,7 @@ def _count(b, key):
 
 
 def nontrivial(c):
-    return _count(c["body"], "NAwait") >= 1 and _count(c["body"], "NValue") >= 1
+    return _count(c["body"], "NAwait") + _count(c["body"], "NYield") >= 1 and _count(c["body"], "NValue") >= 1
 
 
 def compare(c, m, io):
@@ -217,13 +352,17 @@ def compare(c, m, io):
 
 def distribution(cases):
     d = {"body_len": {}, "nested": 0, "failing_await": 0, "raising_body": 0, "exhaustive": 0, "malformed_ops": 0,
-         "via_task": 0, "take_n": {}, "await_kinds": {}, "ops_len": {}, "trailing_await": 0, "no_values": 0}
+         "via_task": 0, "take_n": {}, "await_kinds": {}, "ops_len": {}, "trailing_await": 0, "no_values": 0,
+         "non_value_yields": {}, "bodies_with_non_value_yield": 0, "yield_first_after_advance": 0, "yield_after_await": 0}
 
     def kinds(b):
         for st in b:
             (k, a), = st.items()
             if k == "NAwait":
                 d["await_kinds"][a[0]] = d["await_kinds"].get(a[0], 0) + 1
+            elif k == "NYield":
+                yk = _aw_kind(a[0])
+                d["non_value_yields"][yk] = d["non_value_yields"].get(yk, 0) + 1
             elif k == "NNest":
                 kinds(a[0])
 
@@ -240,6 +379,10 @@ def distribution(cases):
         d["via_task"] += 1 if c["meta"].get("via") == "task" else 0
         d["trailing_await"] += 1 if b and "NAwait" in b[-1] else 0
         d["no_values"] += 1 if _count(b, "NValue") == 0 else 0
+        d["bodies_with_non_value_yield"] += 1 if _count(b, "NYield") else 0
+        # where the non-Value yield sits: first thing after the body is advanced (start / after a Value), or after an await
+        d["yield_first_after_advance"] += 1 if any("NYield" in st and (j == 0 or "NValue" in b[j - 1]) for j, st in enumerate(b)) else 0
+        d["yield_after_await"] += 1 if any("NYield" in st and j > 0 and ("NAwait" in b[j - 1] or "NYield" in b[j - 1]) for j, st in enumerate(b)) else 0
         kinds(b)
         ol = len(c["ops"])
         d["ops_len"][str(min(ol, 8))] = d["ops_len"].get(str(min(ol, 8)), 0) + 1
@@ -269,6 +412,8 @@ def _bad_step(st):
     if k == "NRaise":
         return True
     if k == "NAwait" and isinstance(a[1], dict) and "TErr" in a[1]:
+        return True
+    if k == "NYield" and _aw_fails(a[0]):
         return True
     if k == "NNest":
         return any(_bad_step(x) for x in a[0])
@@ -305,6 +450,7 @@ def monitors(c, io, build):
     allvals = _tree_values(body)
     delivered = 0            # Values handed out so far (any op)
     handle_counted = True
+    handle_expect = None     # what the task handed out by the last successful next() has to compute to, when it can be said
     exhausted = False        # a StopIteration / a completed list_of_generator has been seen
     for i, (o, (r, pulls, stopped), ob) in enumerate(zip(ops, res, io["obs"])):
         name = _opname(o)
@@ -368,6 +514,31 @@ def monitors(c, io, build):
                                    name, post["pulls"], limit, i)))
         if exhausted and not post["stopped"]:
             fs.append(dict(clause="stays-stopped", site="is_stopped-reset", msg="is_stopped went back to False (op %d)" % i))
+
+        # --- iterating as documented (next / task.value()) yields exactly the Values, in program order:
+        #     no StopIteration and no END_OF_GENERATOR while Values remain, each item is the next Value
+        if name == "ONext" and not pending and expect is not None and not (exhausted or pre["stopped"]):
+            if r == {"RRaise": [-10]} and expect:
+                fs.append(dict(clause="iteration-in-order", site="next:StopIteration-with-Values-remaining",
+                               msg="next() raised StopIteration although the Values %s have not been delivered (op %d)" % (expect, i)))
+            first_is_value = (flat and bool(_remaining(body, pre["pulls"])) and "NValue" in _remaining(body, pre["pulls"])[0])
+            if rk == "RConst" and (not expect or {"TVal": [r["RConst"][0]]} != expect[0]):
+                fs.append(dict(clause="iteration-in-order", site="next:ConstFuture:%s" % ("wrong-value" if expect else "after-last-Value"),
+                               msg="next() returned ConstFuture(%s), the next Value in program order is %s (op %d)" % (
+                                   r["RConst"][0], expect[0] if expect else "none", i)))
+            if first_is_value and rk == "RTask":
+                fs.append(dict(clause="iteration-in-order", site="next:task-for-a-Value-already-yielded",
+                               msg="next() returned an uncomputed task although the body yields Value %s next (op %d)" % (expect[0], i)))
+            if rk == "RTask":
+                handle_expect = expect[0] if expect else "TEnd"
+        elif name == "ONext" and rk in ("RTask", "RConst"):
+            handle_expect = None
+        if name == "OCompute" and not handle_counted and handle_expect is not None and rk == "RItem":
+            got = r["RItem"][0]
+            if got != handle_expect:
+                why = ("END-with-Values-remaining" if got == "TEnd" else "value-after-last-Value" if handle_expect == "TEnd" else "wrong-value")
+                fs.append(dict(clause="iteration-in-order", site="task.value():%s" % why,
+                               msg="the task returned by next() computed to %s, the next item in program order is %s (op %d)" % (got, handle_expect, i)))
 
         # --- list_of_generator returns all Values in program order
         if name == "OList" and not pending and expect is not None:
